@@ -192,6 +192,17 @@ func (h *H) Trace(label string, v ...interface{}) {
 func (h *H) Quiesce()       {}
 func (h *H) QuiesceAll()    {}
 func (h *H) Yield()         {}
+func (h *H) AwaitBegin()    {}
+func (h *H) AwaitEnd()      {}
+
+// Await receives one token from ch. Under the engine, a path on which the token can never arrive
+// (nothing can run any more: the scripted outcomes and environment-event bound are used up) is
+// dropped like a false assumption instead of being reported as a deadlock of the code under test.
+func (h *H) Await(ch chan bool) {
+	h.AwaitBegin()
+	<-ch
+	h.AwaitEnd()
+}
 func (h *H) HeldLocks() int { return 0 }
 func (h *H) Symbolic() bool { return false }
 func (h *H) GoID() int      { return 0 }
